@@ -475,6 +475,24 @@ def collate4 (f : CollFunctor) (loc : String) (co : CaseOrder) : CollFunctor × 
 def collate (f : CollFunctor) (lang : String) (co : CaseOrder) : CollFunctor × Collator :=
   if lang.isEmpty == true then collate3 f co else collate4 f lang co
 
+/-- `ULOC_FULLNAME_CAPACITY`: `createCollator(theLocale, …)` refuses longer names with U_ILLEGAL_ARGUMENT_ERROR -/
+def ulocFullnameCapacity : Nat := 157
+
+/-- what a comparison is finally made with: an ICU collator in some state, or — when ICU cannot create the collator —
+`s_defaultFunctor`, i.e. plain UTF-16 code-unit order (ICUBridgeCollationCompareFunctorImpl.cpp:262-271, 303-316) -/
+inductive Comparer where
+  | icu (c : Collator)
+  | codeUnits
+deriving DecidableEq, Repr
+
+/-- `collate` including the failure path.  Only a caller-supplied language reaches `createCollator(theLocale, …)`;
+a name that is too long is never equal to the default locale name and is never cached, so every comparison for it
+falls back and the cache is left alone.  (Any shorter tag, known to ICU or not, yields a collator: ICU answers
+unknown locales with the root collation and a *warning* status, which `U_SUCCESS` accepts.) -/
+def collateF (f : CollFunctor) (lang : String) (co : CaseOrder) : CollFunctor × Comparer :=
+  if lang.length ≥ ulocFullnameCapacity then (f, .codeUnits)
+  else ((collate f lang co).1, .icu (collate f lang co).2)
+
 /-- any sequence of comparisons (of any keys, of any number of sorts of one transformer) -/
 def collateAll : CollFunctor → List (String × CaseOrder) → List Collator
   | _, [] => []
